@@ -490,12 +490,12 @@ def crash_classes():
 
 
 def shape_cfg(shape, pos):
-    nC, bs, coupling = shape
+    nC, bs, coupling, skip = shape
     order = [MAIN, DBI]
     order.insert(pos, FAULT)
     stack = [{"id": i, "enabled": True, "bolForce": False, "reverse": False, "coupler": False} for i in order]
     return {"detailed": False, "nCycles": nC, "burnSteps": [bs] * nC, "startCycle": 0, "startNode": 0, "stack": stack,
-            "deferred": [], "deferredCycle": 0, "coupling": coupling, "maxIters": 2, "skip": [], "halt": [], "conv": []}
+            "deferred": [], "deferredCycle": 0, "coupling": coupling, "maxIters": 2, "skip": list(skip), "halt": [], "conv": []}
 
 
 ABORT_KINDS = ("exception", "SystemExit", "KeyboardInterrupt")
@@ -507,9 +507,10 @@ def real_crash(shape, pos, failAt, kind="exception"):
     from armi.bookkeeping.db import Database
 
     Boom, Fault = crash_classes()
-    nC, bs, coupling = shape
+    nC, bs, coupling, skip = shape
     o, r = load_small({"nCycles": nC, "burnSteps": bs, "startCycle": 0, "startNode": 0, "db": True,
-                       "tightCoupling": coupling, "tightCouplingMaxNumIters": 2})
+                       "tightCoupling": coupling, "tightCouplingMaxNumIters": 2,
+                       "cyclesSkipTightCouplingInteraction": list(skip)})
     for i in list(o.interfaces):
         if i.name not in ("main", "database"):
             o.removeInterface(i)
@@ -529,7 +530,18 @@ def real_crash(shape, pos, failAt, kind="exception"):
                 o.operate()
     except (Boom, SystemExit, KeyboardInterrupt):
         crashed = True
+    except Exception as e:  # noqa  -- the run failed by itself (not the injected fault)
+        crashed = True
+        unexpected = repr(e)[:300]
+    else:
+        unexpected = None
     extra = {}
+    if crashed and "unexpected" in dir() and locals().get("unexpected"):
+        extra["unexpected"] = unexpected
+    if extra.get("unexpected"):
+        if os.path.exists(fn):
+            os.remove(fn)
+        return "none", f.calls, crashed, extra
     if not os.path.exists(fn):
         return "none", f.calls, crashed, extra
     with h5py.File(fn, "r") as h:
@@ -549,7 +561,12 @@ def real_crash(shape, pos, failAt, kind="exception"):
 
 
 def section_crashes(ctx):
-    shapes = ctx.pick([(2, 2, False), (1, 0, False), (2, 1, True)], [(2, 2, False), (1, 0, False), (2, 1, True), (3, 1, False), (1, 3, True)])
+    # (cycles, burn steps, tight coupling, cycles exempt from coupling): with coupling on the database interface writes each
+    # node from _performTightCoupling's trailing writeDBEveryNode (also in exempt cycles), not from interactEveryNode
+    shapes = ctx.pick([(2, 2, False, ()), (1, 0, False, ()), (2, 1, True, ()), (2, 1, True, (1,)), (2, 2, True, (0, 1))],
+                      [(2, 2, False, ()), (1, 0, False, ()), (2, 1, True, ()), (2, 1, True, (1,)), (2, 2, True, (0, 1)),
+                       (3, 1, False, ()), (1, 3, True, ()), (3, 1, True, (0, 2)), (2, 0, True, (0,))])
+    sparse = set() if ctx.thorough else set(shapes[3:])     # quick: every third crash point of the added coupled shapes
     # model runs first: where are the fault interface's hook calls in the schedule?
     plan = []
     for shape in shapes:
@@ -564,14 +581,15 @@ def section_crashes(ctx):
             fidx = [i for i, e in enumerate(events) if e[1] == FAULT]
             cfgargs = c15.run_request(cfg)[4:]
             ref = c15.parse_log(c15.flat(c15.reference(cfg)))   # the independent reference schedule (oracle)
-            points = [(K, "exception") for K in list(range(1, len(fidx) + 1)) + [None]]
+            points = [(K, "exception") for K in list(range(1, len(fidx) + 1)) + [None]
+                      if K is None or shape not in sparse or (K + pos) % 3 == 1]
             # aborts that are BaseException but not Exception (sys.exit / Ctrl-C inside a hook): every point in the
-            # thorough tier; in quick every point of the first shape and every third point of the others, alternating kinds
+            # thorough tier; in quick every second point of the first shape and every fourth point of the next two, alternating kinds
             for K in range(1, len(fidx) + 1):
                 if ctx.thorough:
                     points += [(K, "SystemExit"), (K, "KeyboardInterrupt")]
-                elif shape == shapes[0] or (K + pos) % 3 == 0:
-                    points.append((K, ABORT_KINDS[1 + (K // 3 + K + pos) % 2]))
+                elif (shape == shapes[0] and (K + pos) % 2 == 0) or (shape not in sparse and (K + pos) % 4 == 0):
+                    points.append((K, ABORT_KINDS[1 + (K // 2 + pos) % 2]))
             for K, kind in points:
                 summ, calls, crashed, extra = real_crash(shape, pos, K, kind)
                 case = {"shape": list(shape), "fault_position": pos, "fail_at_call": K, "abort_kind": kind,
@@ -581,6 +599,7 @@ def section_crashes(ctx):
                 else:
                     reqs.append(f"crash {MAIN} {FAULT} {fidx[K - 1]} {cfgargs}")   # the crash path does not depend on the kind
                 impl.append(summ); cases.append(case)
+                ctx.count("run shape: " + ("tight coupling, exempt cycles " + str(list(shape[3])) if shape[2] else "no coupling"))
                 ctx.count("crash point: " + (f"{calls[-1][0]} fault {'before main' if pos == 0 else 'before database' if pos == 1 else 'after database'}"
                                              if K else "complete run"))
                 if K:
@@ -594,7 +613,12 @@ def section_crashes(ctx):
 
 
 def oracle_crash(ctx, case, shape, pos, K, ref, summ, calls, crashed, extra):
+    if extra.get("unexpected"):
+        ctx.fail("run-aborts-without-injected-fault", "a run whose interfaces do not fail completes (the database writer must not "
+                 "fail by itself)", case, observed=extra["unexpected"])
+        return
     coupling = shape[2]
+    nodes_expected = sorted(gname(c, n) for c in range(shape[0]) for n in range(shape[1] + 1))
     fcount = 0
     writes, opened, finalised = [], False, False
     for (hook, ident, args, rc, rn) in ref:
@@ -615,6 +639,11 @@ def oracle_crash(ctx, case, shape, pos, K, ref, summ, calls, crashed, extra):
         if extra.get("names") != sorted(writes):
             ctx.fail("complete-run-holds-every-node-plus-EOL", "a completed run holds every node plus the end-of-life state",
                      case, observed=extra.get("names"), expected=sorted(writes))
+        # stated directly from the run shape (coupled or not, exempt cycles or not): every (cycle, node) and the EOL state
+        want = sorted(nodes_expected + [gname(shape[0] - 1, shape[1], "EOL")])
+        if extra.get("names") != want:
+            ctx.fail("complete-run-holds-every-node-plus-EOL", "a completed run holds every node plus the end-of-life state",
+                     case, observed=extra.get("names"), expected=want)
         return
     if not crashed:
         ctx.fail("fault-not-raised", "the injected failure propagates out of the run", case, observed=summ[:200])
